@@ -320,7 +320,7 @@ func c18c(tp *tape.Tape) core.Result {
 	}
 	var stmts []string // top-level statements after the definitions; the last one's value is checked
 	var want string
-	tpl := tp.Draw(14)
+	tpl := tp.Draw(16)
 	key = key.Int(tpl).Int(w)
 	switch tpl {
 	case 0: // a generator yields a closure over its local; the consumer returns it out of the loop
@@ -380,6 +380,20 @@ func c18c(tp *tape.Tape) core.Result {
 		stmts = []string{fmt.Sprintf("deep(%d)", first), fmt.Sprintf("[upd(%d), upd(%d)]", k, k+10), "{\n" + drawMid() + fmt.Sprintf("\n[upd(%d), upd(%d)]\n}", k, k+10)}
 		want = fmt.Sprintf("[%d, %d]", k+1, k+11)
 		r.Inc("C.captured_variable_updated_on_a_stack_already_grown", 1)
+	case 14: // inner functions whose only use of captured variables is to call them, or to take them as slice bounds
+		defs = append(defs, "compose = (f, g) -> (x) -> f(g(x))", "inc = (n) -> n + 1", "dbl = (n) -> n * 2",
+			"stepper = (f) -> {\n"+pad(w)+"step = (m) -> f(m)\n[step(1), step(2)]\n}",
+			"tk = (n) -> (a) -> a[0:n]")
+		stmts = []string{"hc = compose(inc, dbl)", "hd = compose(dbl, inc)", "ta = tk(3)", "tb = tk(2)",
+			"{\n" + drawMid() + fmt.Sprintf("\n[hc(%d), hd(%d), stepper(inc), ta(\"abcdef\"), tb(\"abcdef\"), ta([1, 2, 3, 4])]\n}", k, k)}
+		want = fmt.Sprintf("[%d, %d, [2, 3], abc, ab, [1, 2, 3]]", 2*k+1, 2*(k+1))
+		r.Inc("C.captured_variables_only_called_or_used_as_bounds", 1)
+	case 15: // the same, created at different stack positions and used later
+		defs = append(defs, "tk = (n) -> (a) -> a[0:n]", "mkat = (d, n) -> if d <= 0 {\ntk(n)\n} else {\nmkat(d - 1, n)\n}")
+		stmts = []string{"ta = mkat(0, 1)", fmt.Sprintf("tb = mkat(%d, 2)", 1+tp.Draw(40)), fmt.Sprintf("tc = mkat(%d, 3)", 100+tp.Draw(200)),
+			"{\n" + drawMid() + "\n[ta(\"wxyz\"), tb(\"wxyz\"), tc(\"wxyz\"), ta(\"wxyz\")]\n}"}
+		want = "[w, wx, wxy, w]"
+		r.Inc("C.closures_of_one_literal_made_at_different_depths", 1)
 	case 12: // the Readme's shadowing example: `a = a + k` inside a function reads the global (or captured) a and writes a local
 		defs = append(defs, "gsh = 13", "shf = (n) -> {\n"+pad(w)+"gsh = gsh + 1\n}", "shg = (n) -> {\ngsh = 2 + gsh\ngsh = gsh - 1\ngsh * n\n}",
 			"shm = (c) -> () -> {\nc = c + 2\nc\n}")
